@@ -3,7 +3,7 @@
    executable property predicates of Spec.v to an observation made on the IMPLEMENTATION. *)
 From Coq Require Import List Ascii String ZArith Bool.
 From Model Require Import Bytes Wire Glob StaticRoute RoundRobin Pins Resolver SendFault Codec Message Spec SpecC14 SpecC16 SpecC15 SpecC19 SpecC05 SpecC20 RunProxy RunBufio SpecProxy SpecProxy2.
-From Model Require RunProxyTB.
+From Model Require RunProxyTB RunProxySp.
 Import ListNotations.
 
 Definition decode_error : list bytes := [s2b "decode-error"].
@@ -198,6 +198,7 @@ Definition run (comp : bytes) (args : list bytes) : list bytes :=
   else if beq comp (s2b "dialog") then run_dialog args
   else if beq comp (s2b "proxy") then run_proxy args
   else if beq comp (s2b "proxytb") then RunProxyTB.run_proxytb args
+  else if beq comp (s2b "proxysp") then RunProxySp.run_proxysp args
   else match run_bufio comp args with Some r => r | None => [s2b "unknown-component"] end.
 
 (* codec: kind text nexpected expected.. then the observation *)
